@@ -8,15 +8,14 @@ chk("C15", "proof",
     "C15_remove_child_dll); no element is its own ancestor (C15_acyclic); validate accepts only values of the property's type, each "
     "font-family item included (C15_validate_sound); the executable checker wf_b is sound for WF (C15_wf_b_sound). All closed under the "
     "global context. The `_partial` theorems exclude, by executable triggers (coq/Model/HeapTriggers.v), the eight recorded call shapes "
-    "that Findings/C15.v proves to break WF, and one call shape whose proof is open (set_doc(doc) on an element that already has "
-    "children). The model is tied to the code by operation-sequence correspondence: random histories of 1-40 calls over 22 elements of "
+    "that Findings/C15.v proves to break WF (each with a reachable well-formed pre-state); nothing else is excluded. The model is tied to the code by operation-sequence correspondence: random histories of 1-40 calls over 22 elements of "
     "all 13 kinds and 2 documents run on the real objects; after every call the dumped object graph must equal M's heap, the outcome "
     "class must equal M's and wf_b/atomicity are evaluated on the dump inside Coq; validate is compared on every (property, sample value) pair.",
     "Trusted: Coq kernel/vm_compute; harness/c15.py (object graph -> heap literal through public getters, value shape classifier, per-step "
     "differences rebuilt by HeapCases.apply_delta); my reading of doc/data_model.md and of the value type of each style property in "
     "Spec/ModelWF.v (bool counts as a number, the empty font-family tuple is accepted); text content, time values and language tags are "
-    "abstracted to set/unset; EFuel models non-termination of link walks and is never observed. Not proved: WF preservation and atomicity "
-    "of set_doc(doc) on an element with children (compared and judged on the code's states only). Recorded findings: put-region-replace, "
+    "abstracted to set/unset; EFuel models non-termination of link walks (never observed on the code; that M never produces it on a "
+    "well-formed heap is not proved). Completeness of wf_b (WF -> wf_b = true) is not proved, only its soundness. Recorded findings: put-region-replace, "
     "remove-region-outside-body, set-region-by-id, set-doc-none-half-applied, set-doc-on-child, push-children-half-applied, rtc-lone-rp, "
     "rtc-push-children-appends.",
     "Coq invariant proof by induction over call sequences of a heap machine + differential operation-history correspondence with in-Coq "
